@@ -11,11 +11,11 @@ import (
 
 func init() {
 	register(&PropRules{
-		ID: "C07",
+		ID:      "C07",
 		Explain: "Structural necessary conditions of session-token security decided on every CFG path of the session code: (C07.1) the AEAD key is a fresh make([]byte,16|24|32) filled by crypto/rand.Read with the failure branch leaving, used for aes.NewCipher and nothing else; the factory's fields are written only in its constructor; (C07.2) every AEAD.Seal takes a nonce that is a fresh make([]byte, NonceSize()) of that call, filled by crypto/rand.Read with checked error/length; (C07.3) openToken returns 200 only under Open err==nil and returns exactly the opened plaintext; Check may return 200 only by delegating to splitCheckToken on that plaintext, with nonce and ciphertext the two base64url-decoded halves (decode errors leave); (C07.4) splitCheckToken returns 200 only under 3 parts, flag exactly \"true\"/\"false\" (admin only on \"true\"), ParseInt ok, age>=0 and age<=lifetime with age = time.Since(time.Unix(parsed,0)) and lifetime the constructor argument; (C07.5) Generate seals Sprintf(\"%s:%t:%d\", user, admin, now) and the reader splits on the same separator into the same positions; both token halves use base64.URLEncoding on both sides.",
-		Undec: []string{"AES-GCM's unforgeability and the CSPRNG (trusted)", "nonce collision probability of random 96-bit nonces", "the base64 text layer (excluded by the property itself)", "wall-clock behaviour"},
-		Run:   runC07,
-		Floors: map[string]int{"C07.1": 3, "C07.2": 1, "C07.3": 2, "C07.4": 1, "C07.5": 2},
+		Undec:   []string{"AES-GCM's unforgeability and the CSPRNG (trusted)", "nonce collision probability of random 96-bit nonces", "the base64 text layer (excluded by the property itself)", "wall-clock behaviour"},
+		Run:     runC07,
+		Floors:  map[string]int{"C07.1": 3, "C07.2": 1, "C07.3": 2, "C07.4": 1, "C07.5": 2},
 	})
 }
 
@@ -99,28 +99,9 @@ func runC07(c *an.Ctx, p *an.Prog, thorough bool) {
 			}
 			c.Check(len(bad) == 0, "C07.1", fnKey(fn)+"|key-fresh-random", p.InstrPos(ci), "AES key = fresh make([]byte,n) filled by crypto/rand.Read (error checked), nothing in between", strings.Join(uniqS(bad), "; "))
 			// the key value flows nowhere else
-			var ms ssa.Value
-			if m, ok := ci.Common().Args[0].(*ssa.MakeSlice); ok {
-				ms = m
-			} else if sl, ok := ci.Common().Args[0].(*ssa.Slice); ok {
-				if al, ok := sl.X.(*ssa.Alloc); ok && al.Comment == "makeslice" && len(*al.Referrers()) == 1 {
-					ms = sl
-				}
-			}
-			if ms != nil {
-				var leaks []string
-				for _, r := range *ms.Referrers() {
-					switch x := r.(type) {
-					case ssa.CallInstruction:
-						n := an.CalleeName(x)
-						if n != "crypto/rand.Read" && n != "crypto/aes.NewCipher" && n != "builtin len" && n != "io.ReadFull" {
-							leaks = append(leaks, "passed to "+shortName(n)+" at "+p.InstrPos(r))
-						}
-					case *ssa.DebugRef:
-					default:
-						leaks = append(leaks, fmt.Sprintf("used by %T at %s", r, p.InstrPos(r)))
-					}
-				}
+			origin, stack := bufferOrigin(ci.Common().Args[0], nil, 0)
+			if origin != nil {
+				leaks := valueLeaks(p, origin, stack, map[string]bool{"crypto/rand.Read": true, "crypto/aes.NewCipher": true, "builtin len": true, "io.ReadFull": true})
 				c.Check(len(leaks) == 0, "C07.1", fnKey(fn)+"|key-confined", p.InstrPos(ci), "the key slice is used only by rand.Read, len and aes.NewCipher (never logged, stored or returned)", strings.Join(leaks, "; "))
 			} else {
 				c.Fail("C07.1", fnKey(fn)+"|key-confined", p.InstrPos(ci), "key operand is not a local make([]byte,…)")
@@ -132,8 +113,8 @@ func runC07(c *an.Ctx, p *an.Prog, thorough bool) {
 		var bad []string
 		n := 0
 		for _, fn := range pkgFns(p, mainPkg) {
-			for _, b := range fn.Blocks {
-				for _, in := range b.Instrs {
+			for _, in := range an.DeepInstrs(fn) {
+				{
 					st, ok := in.(*ssa.Store)
 					if !ok {
 						continue
@@ -162,8 +143,8 @@ func runC07(c *an.Ctx, p *an.Prog, thorough bool) {
 	// ---- C07.2 nonce ----
 	nSeal := 0
 	for _, fn := range pkgFns(p, mainPkg) {
-		for _, b := range fn.Blocks {
-			for _, in := range b.Instrs {
+		for _, in := range an.DeepInstrs(fn) {
+			{
 				ci, ok := in.(ssa.CallInstruction)
 				if !ok || !ci.Common().IsInvoke() || ci.Common().Method.Name() != "Seal" || !strings.Contains(ci.Common().Value.Type().String(), "cipher.AEAD") {
 					continue
@@ -212,8 +193,8 @@ func runC07(c *an.Ctx, p *an.Prog, thorough bool) {
 	// ---- C07.3 open failure is fatal ----
 	var openFn *ssa.Function
 	for _, fn := range pkgFns(p, mainPkg) {
-		for _, b := range fn.Blocks {
-			for _, in := range b.Instrs {
+		for _, in := range an.DeepInstrs(fn) {
+			{
 				if ci, ok := in.(ssa.CallInstruction); ok && ci.Common().IsInvoke() && ci.Common().Method.Name() == "Open" && strings.Contains(ci.Common().Value.Type().String(), "cipher.AEAD") {
 					openFn = fn
 				}
@@ -323,13 +304,8 @@ func runC07(c *an.Ctx, p *an.Prog, thorough bool) {
 					bad = append(bad, fmt.Sprintf("decode error of token half %d not checked", k))
 				}
 				half := dc.Args[1]
-				okHalf := half.Op == "load" && half.Args[0].Op == "indexaddr" && half.Args[0].Args[1].IsConst(want) && half.Args[0].Args[0].IsCallTo("strings.SplitN")
-				if okHalf {
-					sp, _ := half.Args[0].Args[0].CallOf()
-					if !(sp.Args[0].Op == "param" && sp.Args[1].IsConst(`":"`) && sp.Args[2].IsConst("2")) {
-						okHalf = false
-					}
-				}
+				hf, okHalf := splitField(s, half)
+				okHalf = okHalf && hf.is(s.T(check.Params[1]), ":", k, 2) && hf.Present
 				if !okHalf {
 					bad = append(bad, fmt.Sprintf("token half %d is not element %s of SplitN(session, \":\", 2): %s", k, want, half.K))
 				}
@@ -352,34 +328,21 @@ func runC07(c *an.Ctx, p *an.Prog, thorough bool) {
 				return
 			}
 			n200++
-			var sp *an.Term
-			for _, e := range s.Events {
-				if e.Kind == "call" && e.Callee == "strings.SplitN" {
-					sp = e.Res
-				}
+			tokenP := s.T(split.Params[1])
+			isPart := func(t *an.Term, i int) bool {
+				f, ok := splitField(s, t)
+				return ok && f.is(tokenP, ":", i, 3) && f.Present
 			}
-			if sp == nil || !(sp.Args[0].Op == "param" && sp.Args[1].IsConst(`":"`) && sp.Args[2].IsConst("3")) {
-				bad = append(bad, "token is not split by SplitN(token, \":\", 3)")
+			// user name = part 0 of exactly 3 parts
+			if !isPart(ret.Args[2], 0) {
+				bad = append(bad, "200 without the token split at \":\" into exactly 3 parts with the user name being part 0: "+ret.Args[2].K+" on path "+s.BlockPath())
 				return
-			}
-			part := func(i int) string { return fmt.Sprintf("load(&%s[c:%d])", sp.K, i) }
-			// 3 parts
-			ok3 := false
-			for _, a := range s.Atoms {
-				if a.Op == "==" && a.B.IsConst("3") && a.A.IsCallTo("builtin len") {
-					if lc, _ := a.A.CallOf(); lc.Args[0].K == sp.K {
-						ok3 = true
-					}
-				}
-			}
-			if !ok3 {
-				bad = append(bad, "200 without len(parts)==3 on path "+s.BlockPath())
 			}
 			// flag
 			adm := ret.Args[3]
 			flag := ""
 			for _, a := range s.Atoms {
-				if a.Op == "==" && a.A.K == part(1) {
+				if a.Op == "==" && a.B != nil && isPart(a.A, 1) {
 					flag, _ = a.B.ConstString()
 				}
 			}
@@ -391,14 +354,10 @@ func runC07(c *an.Ctx, p *an.Prog, thorough bool) {
 			case !adm.IsConst("true") && !adm.IsConst("false"):
 				bad = append(bad, "admin flag is not a constant chosen by the exact flag text: "+adm.K)
 			}
-			// user name = part 0
-			if ret.Args[2].K != part(0) {
-				bad = append(bad, "user name is not part 0 of the token: "+ret.Args[2].K)
-			}
 			// timestamp
 			var pi *an.Term
 			for _, e := range s.Events {
-				if e.Kind == "call" && e.Callee == "strconv.ParseInt" && e.Args[0].K == part(2) {
+				if e.Kind == "call" && e.Callee == "strconv.ParseInt" && isPart(e.Args[0], 2) {
 					pi = e.Res
 				}
 			}
@@ -497,8 +456,8 @@ func runC07(c *an.Ctx, p *an.Prog, thorough bool) {
 	}
 	// sealToken seals exactly its token parameter and returns (nonce, ciphertext) in that order
 	for _, fn := range pkgFns(p, mainPkg) {
-		for _, b := range fn.Blocks {
-			for _, in := range b.Instrs {
+		for _, in := range an.DeepInstrs(fn) {
+			{
 				ci, ok := in.(ssa.CallInstruction)
 				if !ok || !ci.Common().IsInvoke() || ci.Common().Method.Name() != "Seal" {
 					continue
@@ -537,4 +496,128 @@ func fieldNameOf(fa *ssa.FieldAddr) string {
 		return fv.Name()
 	}
 	return "?"
+}
+
+// bufferOrigin walks back from a []byte operand to the make([]byte, …) it is, through phis with nil, and through the
+// results of helpers interpreted inline; stack lists the call sites entered (outermost first).
+func bufferOrigin(v ssa.Value, stack []*ssa.Call, depth int) (ssa.Value, []*ssa.Call) {
+	if depth > 6 {
+		return nil, nil
+	}
+	switch x := v.(type) {
+	case *ssa.MakeSlice:
+		return x, stack
+	case *ssa.Slice:
+		if al, ok := x.X.(*ssa.Alloc); ok && al.Comment == "makeslice" && len(*al.Referrers()) == 1 {
+			return x, stack
+		}
+	case *ssa.Phi:
+		var o ssa.Value
+		var st []*ssa.Call
+		for _, e := range x.Edges {
+			if c, ok := e.(*ssa.Const); ok && c.IsNil() {
+				continue
+			}
+			oo, ss := bufferOrigin(e, stack, depth+1)
+			if oo == nil || (o != nil && oo != o) {
+				return nil, nil
+			}
+			o, st = oo, ss
+		}
+		return o, st
+	case *ssa.Extract:
+		if c, ok := x.Tuple.(*ssa.Call); ok {
+			return resultOrigin(c, x.Index, stack, depth)
+		}
+	case *ssa.Call:
+		return resultOrigin(x, 0, stack, depth)
+	}
+	return nil, nil
+}
+
+func resultOrigin(c *ssa.Call, idx int, stack []*ssa.Call, depth int) (ssa.Value, []*ssa.Call) {
+	g := c.Common().StaticCallee()
+	if g == nil || !an.Inlinable(g) {
+		return nil, nil
+	}
+	var o ssa.Value
+	var st []*ssa.Call
+	for _, b := range g.Blocks {
+		r, ok := b.Instrs[len(b.Instrs)-1].(*ssa.Return)
+		if !ok || idx >= len(r.Results) {
+			continue
+		}
+		if k, ok := r.Results[idx].(*ssa.Const); ok && k.IsNil() {
+			continue
+		}
+		oo, ss := bufferOrigin(r.Results[idx], append(append([]*ssa.Call(nil), stack...), c), depth+1)
+		if oo == nil || (o != nil && oo != o) {
+			return nil, nil
+		}
+		o, st = oo, ss
+	}
+	return o, st
+}
+
+// valueLeaks follows a buffer forward from its make: every use must be one of the allowed callees, len, a nil test, or
+// the hand-over to the caller recorded in stack (the call sites through which the buffer was found).
+func valueLeaks(p *an.Prog, origin ssa.Value, stack []*ssa.Call, allowed map[string]bool) []string {
+	var leaks []string
+	type item struct {
+		v     ssa.Value
+		depth int // how many frames of stack are still open
+	}
+	seen := map[ssa.Value]bool{}
+	var walk func(v ssa.Value, open int)
+	walk = func(v ssa.Value, open int) {
+		if seen[v] {
+			return
+		}
+		seen[v] = true
+		refs := v.Referrers()
+		if refs == nil {
+			return
+		}
+		for _, r := range *refs {
+			switch x := r.(type) {
+			case *ssa.DebugRef, *ssa.If:
+			case *ssa.BinOp:
+				// comparison (with nil): yields a bool
+			case *ssa.Phi:
+				walk(x, open)
+			case *ssa.Extract:
+				walk(x, open)
+			case *ssa.Return:
+				if open == 0 {
+					leaks = append(leaks, "returned at "+p.InstrPos(r))
+					continue
+				}
+				site := stack[open-1]
+				for i, res := range x.Results {
+					if res != v {
+						continue
+					}
+					if len(x.Results) == 1 {
+						walk(site, open-1)
+						continue
+					}
+					for _, rr := range *site.Referrers() {
+						if ex, ok := rr.(*ssa.Extract); ok && ex.Index == i {
+							walk(ex, open-1)
+						}
+					}
+				}
+			case ssa.CallInstruction:
+				n := an.CalleeName(x)
+				if _, isCall := r.(*ssa.Call); isCall && allowed[n] {
+					continue
+				}
+				leaks = append(leaks, "passed to "+shortName(n)+" at "+p.InstrPos(r))
+			default:
+				leaks = append(leaks, fmt.Sprintf("used by %T at %s", r, p.InstrPos(r)))
+			}
+		}
+	}
+	walk(origin, len(stack))
+	return leaks
 }
